@@ -292,6 +292,8 @@ type YW struct {
 	Opts  []hsync.Option
 	// Halt freezes block production at this height when non-zero.
 	Halt uint64
+	// ParkStoreCalls puts the ParkStore seam between the Syncer and the Store.
+	ParkStoreCalls bool
 }
 
 // newYW builds a chain whose head is at height `age` now and that keeps growing
@@ -320,6 +322,7 @@ func (w *YW) NetHead() uint64 {
 func (w *YW) configureDisk() {
 	s := w.S
 	w.Flav = core.Pick(s.Tape, "flavour", []string{"plain", "ctx", "snap"})
+	w.ParkStoreCalls = s.Tape.Coin("park-store-calls", 1, 3)
 	if s.Tape.Coin("park-disk", 1, 3) {
 		w.Disk.Park = true
 		drng := s.Sub("disk-latency")
@@ -350,7 +353,13 @@ func (w *YW) OpenStore(p store.Parameters) error {
 
 func (w *YW) NewSyncer(opts ...hsync.Option) error {
 	var err error
-	w.Sy, err = hsync.NewSyncer[*H](w.G, w.St, w.Sub, opts...)
+	var st header.Store[*H] = w.St
+	if w.ParkStoreCalls {
+		// every call the Syncer makes to its Store becomes a pair of park points
+		st = &ParkStore{S: w.S, St: w.St}
+		w.S.Probe("store-calls-are-park-points")
+	}
+	w.Sy, err = hsync.NewSyncer[*H](w.G, st, w.Sub, opts...)
 	return err
 }
 
